@@ -133,3 +133,13 @@ def _task_stacks(world, limit=4):
             except Exception:  # noqa: BLE001
                 pass
     return out[:30]
+
+
+def finish(res, world, sig=None):
+    """Refresh the summary after the oracles ran (they add probes / violations)."""
+    res["probes"] = dict(world.probes)
+    res["faults"] = dict(world.fault_counts)
+    res["violations"] = [list(v) for v in world.violations]
+    if sig is not None:
+        res["sig"] = hashlib.sha1(repr(sig).encode()).hexdigest()[:16]
+    return res
